@@ -60,11 +60,11 @@ def check(R, F):
     R.floor('prune', 4, 'four return tuples in remove_in_class')
     # children.remove only under the flag returned by the recursive call, with the same key as the lookup
     rm = [(b, t) for b, t in ric.calls() if re.search(r'HashMap::<[^>]*>::remove$', callee_name(t))]
-    R.require(len(rm) == 1 and any(re.match(r'^remove_in_class\(.*\)\.1 not in \[0\]$|^catalog::remove_in_class\(.*\)\.1 not in \[0\]$', g) for g in paths.dom_guards(ric, rm[0][0])),
+    R.require(len(rm) == 1 and any(re.match(r'^(catalog::)?remove_in_class\(.*\)\.\w+ not in \[0\]$', g) for g in paths.dom_guards(ric, rm[0][0])),
               'prune', ric.gpath + '|child-removed-only-under-flag', ric.where(rm[0][0]) if rm else ric.where(), 'children.remove is guarded by the child\'s flag', 'children.remove is not guarded by the flag returned for that child')
     rmv = F.fn(CAT + 'HashMapTreeCatalog::<Z, M>::remove')
     rr = calls_in(rmv, 'OccupiedEntry::<\'a, K, V, A>::remove') or [(b, t) for b, t in rmv.calls() if callee_name(t).endswith('::remove') and 'Entry' in callee_name(t)]
-    ok = len(rr) == 1 and any(re.search(r'remove_in_class\(.*\)\.1 not in \[0\]$', g) for g in paths.dom_guards(rmv, rr[0][0]))
+    ok = len(rr) == 1 and any(re.search(r'remove_in_class\(.*\)\.\w+ not in \[0\]$', g) for g in paths.dom_guards(rmv, rr[0][0]))
     R.require(ok, 'prune', rmv.gpath + '|root-removed-only-under-flag', rmv.where(rr[0][0]) if rr else rmv.where(), 'class root removed only under the root\'s flag', 'the class root is not removed under the flag returned for the root')
     # the recursion starts at the full depth of the name
     for b, t in calls_in(rmv, CAT + 'remove_in_class'):
